@@ -1,7 +1,7 @@
 (* Property C18 — attribute arguments may be given in any order.
    Only final statements; proofs in Front/AttrProofs.v. *)
 From Coq Require Import List NArith Permutation.
-From LogosV Require Import Front.AttrParser Front.AttrProofs.
+From LogosV Require Import Front.AttrParser Front.AttrProofs Front.TypeParams.
 Import ListNotations.
 Local Open Scope N_scope.
 
@@ -21,3 +21,21 @@ Proof. exact named_args_commute. Qed.
 Theorem C18_old_refuted :
   exists its, Forall item_ok its /\ parse_all false 5 (join its) <> map sem its.
 Proof. exact parse_join_items_old_refuted. Qed.
+
+(* #[logos(type T = Type)] and #[logos(lifetime = 'a)] items (Front/TypeParams.v): what the derive puts
+   into the generics depends on the items only through "is there a lifetime item" and the type items
+   in their order — so the two kinds of items may be listed in either order. *)
+Theorem C18_generic_items_commute : forall l1 l2,
+  has_lifetime l1 = has_lifetime l2 -> type_items l1 = type_items l2 ->
+  TypeParams.generics (run l1) = TypeParams.generics (run l2).
+Proof. exact items_commute. Qed.
+
+Theorem C18_type_lifetime_swap : forall n t a pre post,
+  TypeParams.generics (run (pre ++ ISetType n t :: ISetLifetime a :: post))
+  = TypeParams.generics (run (pre ++ ISetLifetime a :: ISetType n t :: post)).
+Proof. exact type_lifetime_swap. Qed.
+
+(* regression lemma: with the eager rewrite of set_type as it was, the two orders differ (finding F10) *)
+Theorem C18_old_generic_items_refuted : exists n t a,
+  generics_old (run_old [ISetType n t; ISetLifetime a]) <> generics_old (run_old [ISetLifetime a; ISetType n t]).
+Proof. exact old_order_matters. Qed.
